@@ -46,6 +46,9 @@ func c20Setup() *c20Env {
 		vAssume(vAnd(vAnd(host[0] >= 'a', host[0] <= 'z'), vAnd(host[1] >= 'a', host[1] <= 'z')))
 		e.base = "http://" + host + "/api"
 		e.ds.BaseURL = e.base
+	} else if vRange("defaultDatasourceReconfigured", 0, 1) == 1 {
+		// another datasource's configuration is none of this one's business
+		DefaultDatasource.BaseURL = "http://elsewhere.example/api"
 	}
 	switch vRange("limiter", 0, 2) {
 	case 1:
@@ -155,7 +158,7 @@ func VerifH_C20_elements() {
 	e := c20Setup()
 	ctx := context.Background()
 	id := vInt64("id")
-	vAssume(vAnd(id >= 0, id < 1<<40))
+	vAssume(vAnd(id >= 0, id < 1<<62)) // ids beyond the 40 bits that packed ids can hold are still plain numbers in a URL
 	ver := vInt("version")
 	vAssume(vAnd(ver >= 0, ver < 1<<16))
 	kind := vRange("kind", 0, 2) // node way relation
@@ -244,8 +247,9 @@ func VerifH_C20_elements() {
 			x, err = e.ds.RelationHistory(ctx, osm.RelationID(id))
 			got, count = x, len(x)
 		}
-	case 3: // multi fetch with concrete ids
-		ids := []int64{123456789012, 7, 0, 98765432109}[:vRange("ids", 1, 4)]
+	case 3: // multi fetch
+		// concrete ids, one of them beyond the 40 bits a packed id can hold
+		ids := []int64{1234567890123456, 7, 0, 98765432109}[:vRange("ids", 1, 4)]
 		list := ""
 		for i, v := range ids {
 			if i > 0 {
@@ -308,7 +312,7 @@ func VerifH_C20_related() {
 	e := c20Setup()
 	ctx := context.Background()
 	id := vInt64("id")
-	vAssume(vAnd(id >= 0, id < 1<<40))
+	vAssume(vAnd(id >= 0, id < 1<<62)) // ids beyond the 40 bits that packed ids can hold are still plain numbers in a URL
 	ep := vRange("endpoint", 0, 11)
 	opts, q := []FeatureOption(nil), ""
 	if ep <= 5 {
